@@ -26,13 +26,13 @@ reg("C05", "masked or undefined samples never influence a result",
          "DbGrid as DATA; block kriging, kribayes, krigprof, colocated cokriging; measurement-error variances; codes / dates / "
          "faults; SPDE; conditional simulation to POINT targets (see author report).",
     require=dict(distinct=800,
-                 oracles=dict(quick={"kriging:equal": 200, "xvalid:equal": 120, "vario:gg": 450, "covmat:equal": 150,
-                                     "simtub:equal": 140, "migrate:equal": 90, "stats:mono": 20, "stats:multi": 20,
-                                     "anam:psi": 50, "pca:eigvals": 50, "db:isActive": 50, "kriging:off-rows-TEST": 90},
-                              thorough={"kriging:equal": 4000, "xvalid:equal": 2400, "vario:gg": 9000, "covmat:equal": 3000,
-                                        "simtub:equal": 2800, "migrate:equal": 1800, "stats:mono": 400, "stats:multi": 400,
+                 oracles=dict(quick={"kriging:equal": 170, "xvalid:equal": 100, "vario:gg": 450, "covmat:equal": 120,
+                                     "simtub:equal": 130, "migrate:equal": 80, "stats:mono": 20, "stats:multi": 20,
+                                     "anam:psi": 40, "pca:eigvals": 45, "db:isActive": 40, "kriging:off-rows-TEST": 75},
+                              thorough={"kriging:equal": 3500, "xvalid:equal": 2200, "vario:gg": 9000, "covmat:equal": 2700,
+                                        "simtub:equal": 2600, "migrate:equal": 1600, "stats:mono": 400, "stats:multi": 400,
                                         "anam:psi": 1000, "pca:eigvals": 1000, "db:isActive": 1000,
-                                        "kriging:off-rows-TEST": 1800})),
+                                        "kriging:off-rows-TEST": 1600})),
     assumptions=["the reduced Db built by the harness (Db::createFromSamples on kept rows + setLocator) is a faithful physical "
                  "removal (cross-checked against Db::createReduce and Db::deleteSamples by the db-predicates operation)",
                  "bit-for-bit equality is demanded because masked and reduced runs reach the same arithmetic in the same order "
